@@ -262,6 +262,12 @@ func (fr *Frame) callsiteObligations(full string, sig *types.Signature, recvT ty
 		}
 	}
 	for _, cr := range reqs {
+		if vc.sess.lockSweep && !strings.Contains(cr.Req.Text, "held(") && !strings.Contains(cr.Req.Text, "nolocks(") {
+			// the lock sweep loads only the packages whose locks it follows: clauses that do not speak about locks may
+			// use vocabulary of packages it has not loaded, and are none of its business
+			vc.coveredCallsites[fmt.Sprintf("%s@%s:%d", full, fr.fn.Name(), vc.sess.pos(fr.pos(ins)).Line)] = true
+			continue
+		}
 		env := fr.specEnv(fr.cur, fr.oldState)
 		env.atBlock, env.atIdx = fr.curBlock, fr.curIdx
 		// entry values of the enclosing function's parameters are available as <name>0
@@ -492,6 +498,14 @@ func (fr *Frame) execDeferredCall(d *deferRec, ins ssa.Instruction) {
 	if fn := cc.StaticCallee(); fn != nil {
 		fr.callStatic(nil, fn, d.args, nil, ins, "defer")
 		return
+	}
+	// deferred call of a function stored in a struct field / of a named function type: the same contracts as for a
+	// direct dynamic call
+	if !cc.IsInvoke() {
+		if c := fr.dynContract(cc); c != nil {
+			fr.applyContract(c, sig, nil, d.args, ins, "defer")
+			return
+		}
 	}
 	fr.unknownCall(nil, sig, "deferred dynamic call", nil, "defer")
 }
